@@ -212,6 +212,9 @@ class World:
                         opts.append(sid)
                 for o in opts:
                     sc.append(["subd", rid, o])
+                    if self.hobj[hkey] is None and (o == "fresh" or m.state.get(o) != "ambiguous"):
+                        # .. or unsubscribes the handler it has just subscribed
+                        sc.append(["subd", rid, o, "self"])
                     if o != "fresh" and self.hobj[hkey] is None and m.state.get(o) != "ambiguous":
                         # the application unsubscribes an older handler of the same subscription
                         # from the callback of this subscribe() (Twisted: runs inside SUBSCRIBED)
@@ -344,6 +347,8 @@ class World:
         hkey = v["hkey"]
         inner = []
         wire2 = None
+        if j == "self":
+            j = hkey
         if j is not None:
             # reference: the new handler is attached, THEN the application's callback unsubscribes j
             rid2, wire2 = m.unsubscribe(j)
@@ -352,7 +357,16 @@ class World:
 
             def cb(_r):
                 n0 = len(l1.transport.sent)
-                r = l1.api(self.subobj[j].unsubscribe)
+                if j == hkey:
+                    st_ = l1.fstate("sub#%d" % hkey)
+                    target = st_[1] if st_[0] == "ok" else None
+                    if target is None:
+                        inner.append((("raise", RuntimeError("subscribe() did not deliver a Subscription: %r" % (st_,))),
+                                      [], "-"))
+                        return None
+                else:
+                    target = self.subobj[j]
+                r = l1.api(target.unsubscribe)
                 label = "unsub#%d" % self.nunsub
                 self.nunsub += 1
                 if r[0] == "ok" and r[1] is not None:
@@ -388,7 +402,8 @@ class World:
             if sub is None:
                 self.bad("subscribe-not-completed", "subscribed", "no Subscription for handler %d" % hkey)
             else:
-                if getattr(sub, "id", None) != sid or sub.topic != v["topic"] or not sub.active:
+                if getattr(sub, "id", None) != sid or sub.topic != v["topic"] or \
+                        bool(sub.active) == (j == hkey):     # (unsubscribed by its own callback: inactive)
                     self.bad("subscription-content", "subscribed", "expected id=%r topic=%r active, got %s" % (
                         sid, v["topic"], sub))
             if j is not None:
